@@ -22,6 +22,8 @@ TRANSPARENT = {"to_dense", "to", "type", "type_as", "unsqueeze", "squeeze", "add
 TRANSPARENT_FUNCS = {"to_linear_operator", "to_dense", "DenseLinearOperator", "delazify", "lazify"}
 SUM_CTORS = {"SumLinearOperator", "PsdSumLinearOperator", "AddedDiagLinearOperator"}
 PROD_CTORS = {"MatmulLinearOperator"}
+ROOT_CTORS = {"RootLinearOperator", "LowRankRootLinearOperator"}
+ADDED_DIAG_CTORS = {"LowRankRootAddedDiagLinearOperator"}
 
 
 class Lin:
@@ -225,6 +227,12 @@ class LinEval:
                         return None
                     out = out + v
                 return out
+            if short in ROOT_CTORS and len(e.args) == 1:
+                a = self.ev(e.args[0])
+                return None if a is None else a @ a.transpose(self.symmetric)
+            if short in ADDED_DIAG_CTORS and len(e.args) == 2:
+                a, b = self.ev(e.args[0]), self.ev(e.args[1])
+                return None if a is None or b is None else a + b
             if short in PROD_CTORS and len(e.args) == 2:
                 a, b = self.ev(e.args[0]), self.ev(e.args[1])
                 return None if a is None or b is None else a @ b
